@@ -96,7 +96,7 @@ func rangeVocab(overlap bool) []rangeQ {
 
 func draw(rt *rapid.T) Scenario {
 	var sc Scenario
-	sc.Sched = detsim.DrawSched(rt, 500)
+	sc.Sched = detsim.DrawSched(rt, detsim.Scale(500, 1500))
 	if rapid.IntRange(0, 9).Draw(rt, "family") < 7 {
 		sc.Family = "burst"
 	} else {
@@ -113,9 +113,9 @@ func draw(rt *rapid.T) Scenario {
 		sc.Overlap = false
 	}
 	vocab := rapid.IntRange(1, 3).Draw(rt, "vocab")
-	ncallers := rapid.IntRange(2, 8).Draw(rt, "callers")
+	ncallers := rapid.IntRange(2, detsim.Scale(8, 12)).Draw(rt, "callers")
 	for c := 0; c < ncallers; c++ {
-		nops := rapid.IntRange(1, 4).Draw(rt, "nops")
+		nops := rapid.IntRange(1, detsim.Scale(4, 6)).Draw(rt, "nops")
 		ops := []Op{}
 		for i := 0; i < nops; i++ {
 			var op Op
